@@ -152,8 +152,8 @@ where
 
     let mag = parse_digits_u128(digits, radix).ok_or_else(invalid)?;
     let val_i128: i128 = if neg {
-        let mag_i128: i128 = mag.try_into().map_err(|_| invalid())?;
-        mag_i128.checked_neg().ok_or_else(invalid)?
+        // Subtract the magnitude so that i128::MIN (magnitude 2^127) is representable.
+        0i128.checked_sub_unsigned(mag).ok_or_else(invalid)?
     } else {
         mag.try_into().map_err(|_| invalid())?
     };
